@@ -1,0 +1,47 @@
+// +build verif
+
+// Read-only accessors used by the external verification harness (/verif).
+// Compiled only with -tags verif; nothing here changes behaviour.
+
+package state
+
+import (
+	"math/big"
+
+	"github.com/youchainhq/go-youchain/common"
+)
+
+// VerifJournalLens returns (account journal length, validator journal length,
+// number of live account revisions, number of live validator revisions).
+func (st *StateDB) VerifJournalLens() (int, int, int, int) {
+	return st.journal.length(), st.validatorJournal.length(), len(st.validRevisions), len(st.valValidRevisions)
+}
+
+// VerifDelegationBalance returns the delegator-side total of an account (nil if the account does not exist).
+func (st *StateDB) VerifDelegationBalance(addr common.Address) *big.Int {
+	obj := st.getStateObject(addr)
+	if obj == nil {
+		return nil
+	}
+	return new(big.Int).Set(obj.DelegationBalance())
+}
+
+// VerifDelegations returns the delegator-side list of validators of an account.
+func (st *StateDB) VerifDelegations(addr common.Address) []common.Address {
+	obj := st.getStateObject(addr)
+	if obj == nil {
+		return nil
+	}
+	return append([]common.Address{}, obj.Delegations()...)
+}
+
+// VerifValidatorIndex returns the sorted in-memory validator index.
+func (st *StateDB) VerifValidatorIndex() []common.Address {
+	return st.validatorIndex.List()
+}
+
+// VerifLogSize returns the running log counter.
+func (st *StateDB) VerifLogSize() uint { return st.logSize }
+
+// VerifDeleted reports the deleted flag of a validator object.
+func (v *Validator) VerifDeleted() bool { return v.deleted }
